@@ -23,6 +23,10 @@ func TestMain(m *testing.M) { h.Main(m, "C13", replay) }
 type rtCase struct {
 	Text    string `json:"text"`    // the value
 	Literal string `json:"literal"` // its encoding including the outer quotes
+	// a second literal (and its value) written as the very next token of the program: a
+	// statement that ends in a literal, followed by a statement that begins with one
+	After     string `json:"after,omitempty"`
+	AfterText string `json:"after_text,omitempty"`
 }
 
 type decCase struct {
@@ -403,6 +407,16 @@ func checkRoundTrip(c rtCase) []h.Failure {
 		if o.Kind != h.KValue || o.ValType != "string" || o.ValText != c.Text {
 			return []h.Failure{{Sig: "roundtrip/value-differs", Msg: fmt.Sprintf("program 输出%s: expected the text %q, got %s", c.Literal, c.Text, o.Short())}}
 		}
+		if c.After != "" {
+			// every literal of a program is its own value, also when the next token is
+			// another literal
+			src := "令甲 = " + c.Literal + "\n" + c.After + "\n令乙 = " + c.After + "\n" + c.Literal + "\n输出【甲，乙】"
+			o := h.Run(src, h.Opts{})
+			want := "[" + c.Text + "，" + c.AfterText + "]"
+			if o.Kind != h.KValue || o.ValText != want {
+				return []h.Failure{{Sig: "roundtrip/adjacent-literals-differ", Msg: fmt.Sprintf("program\n%s\nexpected the list of %q and %q, got %s", src, c.Text, c.AfterText, o.Short())}}
+			}
+		}
 	}
 	return nil
 }
@@ -475,6 +489,11 @@ func TestRoundTrip(t *testing.T) {
 		open := rapid.SampledFrom([]rune{'“', '「', '“', '「', '‘', '『', '《'}).Draw(t, "open")
 		lit, labels := encode(t, text, open)
 		c := rtCase{Text: text, Literal: lit}
+		if (open == '“' || open == '「') && rapid.Bool().Draw(t, "adjacent") {
+			c.AfterText = genText().Draw(t, "after-text")
+			c.After, _ = encode(t, c.AfterText, rapid.SampledFrom([]rune{'“', '「'}).Draw(t, "after-open"))
+			labels = append(labels, "adjacent-literal-statements")
+		}
 		nt := !balanced(text, open) || strings.ContainsAny(text, "\r\n")
 		rs := []rune(text)
 		for i := 0; i+1 < len(rs); i++ {
